@@ -13,6 +13,8 @@ CLAIMED = {
  'C06': ('proof', "init() resets every piece of mutable state of solver and factorization (theorem on the member inventory regenerated from the class definitions), counters after init() independent of the previous state (generated init), no static state; fresh vs reused solver (after other runs, throwing calls, injected faults) compared bit for bit on all 11 classes, operator probed before/after.", '§5 C06', 'inventory theorems on translated class definitions; differential histories'),
  'C13': ('proof', "partial: restart sizes in 1..ncv-1, one application per breakdown, factorize_from cost in [to-from, 2(to-from)], and the work bound 2(ncv-1)(maxit+1) for compute() are theorems on the generated drivers for every oracle/world; the real nev_adjusted is compared exhaustively with the generated model (ncv <= 10 quick / 14 thorough). Memory safety / UB / NaN are runtime behaviour: structured hard inputs with Eigen assertions on (quick) and ASan+UBSan (thorough).", '§5 C13', 'theorems on translated index/counter code; exhaustive table; sanitizer search'),
  'C14': ('proof', "partial: the generated drivers propagate whatever exception a kernel raises unchanged, raise nothing themselves and the library has no handler (theorems, arbitrary world); recovery is exercised by injecting a fault at EVERY operator application index (A and B operators; pairs in thorough) and comparing the post-recovery init();compute() bit for bit with the fault-free run. Unwinding/leaks: ASan/LSan in the thorough tier.", '§5 C14', 'theorems on translated drivers; exhaustive fault injection'),
+ 'C20': ('proof', "partial: no variable with static storage duration, every mutable member belongs to an object owned by one solver, the shareable product wrappers have only const methods and no mutable member, every RNG is a local object (theorems on inventories regenerated from the class definitions); the data race itself is runtime behaviour: ThreadSanitizer build, 2..16 threads, private or shared wrapper, concurrent results compared bitwise with sequential ones.", '§5 C20', 'inventory theorems on translated class definitions; ThreadSanitizer launches'),
+ 'C08': ('proof', "Exact-arithmetic theorems over an arbitrary real closed field on the kernel models: rotation kernel exact (zero cases, standard branch) with explicit t^6 defect polynomials in the Taylor branch; UpperHessenbergQR: R = Q'(H - sI) columnwise and upper triangular for every n, input, shift; Q isometric, apply_QY/apply_QtY mutually inverse, right-multiplication consistent with left-multiplication. The binary64 instance of the same Gallina terms (UpperHessenbergQR, TridiagQR, DoubleShiftQR, every public/protected output) is compared with the C++ bit for bit; the property's identities are evaluated on the implementation in float/double/long double. TridiagQR/DoubleShiftQR global similarity theorems not yet proved (partial).", '§5 C08', 'theorems over rcfType on kernel models; bit-exact correspondence; identity slice'),
 }
 NA_REASON = "check under construction in this session (machinery not yet committed); not a claim that the technique cannot apply"
 props = [json.loads(l) for l in open('/verif/properties.jsonl')]
